@@ -208,7 +208,7 @@ def c05(archs, tier, seed, types=ATYPES):
                 ks.append(mk('C05', 'compress', 'vm', 'v', 'xsimd::compress(a, b)', ty, arch)); ks.append(mk('C05', 'expand', 'vm', 'v', 'xsimd::expand(a, b)', ty, arch))
             else:
                 # wide masks: the mask bits are symbolic inside a 16-lane window, concrete (all 0 / all 1) outside it
-                for lo in range(0, n, 16):
+                for lo in (range(0, n, 16) if tier == 'thorough' else sorted({0, n - 16})):     # quick: first and last window
                     for bg in ((0, 1) if tier == 'thorough' else (0,)):      # all-ones background: the rank terms make these the hardest queries (thorough only)
                         v = 'w%db%d' % (lo, bg)
                         ks.append(mk('C05', 'compress', 'vm', 'v', 'xsimd::compress(a, b)', ty, arch, variant=v, meta={'window': (lo, lo + 16), 'bg': bg}))
